@@ -273,7 +273,8 @@ def run(ck, F, E):
         has = [c for c in ml.calls() if sfx(c.callee, "Arrays::has")]
         ck.require(bool(has) and bool(ml.calls_to("Interpreter::warn")), "C17:WARN:array-condition", "warning condition",
                    "array warning is conditioned on !arrays.has(name)", "the array warning lost its !arrays.has() test", ml.span)
-    et = get_fn(ck, F, "ExpressionEvaluator::evaluate_expression_term")
+    cands = [b for b, c in callers_of(F, "Variables::has") if b.crate == "abasic_core" and "expression::ExpressionEvaluator" in b.path]
+    et = cands[0] if len({b.path for b in cands}) == 1 else get_fn(ck, F, "ExpressionEvaluator::evaluate_expression_term")
     if et is not None:
         has = [c for c in et.calls() if sfx(c.callee, "Variables::has")]
         warn = et.calls_to("Interpreter::warn")
